@@ -221,6 +221,16 @@ func c16Oracle(c *fw.Ctx, w *vs.World, name string, prm c16Params, st *c16State)
 	if prm.Prop == "C06" {
 		// the first Close frame on the wire, whatever else the connection is doing
 		fs, _ := frame.ParseAll(st.p.Out)
+		nclose := 0
+		for _, f := range fs {
+			if f.Opcode == frame.OpClose {
+				nclose++
+			}
+		}
+		if nclose > 1 {
+			violate(c, w, name, "C06/second-close-frame/"+locus, fmt.Sprintf("%d Close frames on the wire: an endpoint sends its own Close frame or echoes the peer's, once\nwire: %s", nclose, describeFrames(fs)))
+			return
+		}
 		for _, f := range fs {
 			if f.Opcode != frame.OpClose {
 				continue
@@ -408,8 +418,12 @@ func c06CloseFrameScenarios(tier string) []scenario {
 			{Name: "local-never-wbig", K: k, Init: "local", Echo: "never", Writers: 2, BigStream: true},
 			{Name: "peer-wbig", K: k, Init: "peer", Echo: "early", Writers: 2, BigStream: true},
 			{Name: "local-nostatus-w2", K: k, Init: "local", Echo: "never", Writers: 2, NoStatus: true},
+			{Name: "both-stalled", K: k, Init: "both", Echo: "never", Stall: true, GiveUp: "ping"},
 		} {
-			if tier != "thorough" && (k.Flate != prm.BigStream || prm.Name == "peer-wbig") {
+			if tier != "thorough" && (k.Flate != prm.BigStream || prm.Name == "peer-wbig") && !(prm.Name == "both-stalled" && !k.Flate) {
+				continue
+			}
+			if prm.Name == "both-stalled" && k.Flate {
 				continue
 			}
 			prm.Prop = "C06"
